@@ -46,6 +46,7 @@ fn fs_code(f: &FlightStatus) -> i64 {
         FlightStatus::NoAlertSPIAirborneGround => 5,
         FlightStatus::Reserved => 6,
         FlightStatus::NotAssigned => 7,
+        _ => -1, // a variant this projection does not know: equal to no specified value
     }
 }
 fn ids_code(t: &UtilityMessageType) -> i64 {
@@ -54,6 +55,7 @@ fn ids_code(t: &UtilityMessageType) -> i64 {
         UtilityMessageType::CommB => 1,
         UtilityMessageType::CommC => 2,
         UtilityMessageType::CommD => 3,
+        _ => -1, // a variant this projection does not know: equal to no specified value
     }
 }
 fn ss_code(s: &SurveillanceStatus) -> i64 {
@@ -62,30 +64,35 @@ fn ss_code(s: &SurveillanceStatus) -> i64 {
         SurveillanceStatus::PermanentAlert => 1,
         SurveillanceStatus::TemporaryAlert => 2,
         SurveillanceStatus::SPICondition => 3,
+        _ => -1, // a variant this projection does not know: equal to no specified value
     }
 }
 pub fn parity_code(f: &CPRFormat) -> i64 {
     match f {
         CPRFormat::Even => 0,
         CPRFormat::Odd => 1,
+        _ => -1, // a variant this projection does not know: equal to no specified value
     }
 }
 fn sign_code(s: &Sign) -> i64 {
     match s {
         Sign::Positive => 0,
         Sign::Negative => 1,
+        _ => -1, // a variant this projection does not know: equal to no specified value
     }
 }
 fn vrsrc_code(s: &VerticalRateSource) -> i64 {
     match s {
         VerticalRateSource::BarometricPressureAltitude => 0,
         VerticalRateSource::GeometricAltitude => 1,
+        _ => -1, // a variant this projection does not know: equal to no specified value
     }
 }
 fn gts_code(s: &StatusForGroundTrack) -> i64 {
     match s {
         StatusForGroundTrack::Invalid => 0,
         StatusForGroundTrack::Valid => 1,
+        _ => -1, // a variant this projection does not know: equal to no specified value
     }
 }
 fn es_code(e: &EmergencyState) -> i64 {
@@ -98,6 +105,7 @@ fn es_code(e: &EmergencyState) -> i64 {
         EmergencyState::UnlawfulInterference => 5,
         EmergencyState::DownedAircraft => 6,
         EmergencyState::Reserved2 => 7,
+        _ => -1, // a variant this projection does not know: equal to no specified value
     }
 }
 fn tcl_code(t: &TypeCoding) -> i64 {
@@ -106,6 +114,7 @@ fn tcl_code(t: &TypeCoding) -> i64 {
         TypeCoding::C => 2,
         TypeCoding::B => 3,
         TypeCoding::A => 4,
+        _ => -1, // a variant this projection does not know: equal to no specified value
     }
 }
 fn ver_code(v: &ADSBVersion) -> i64 {
@@ -113,6 +122,7 @@ fn ver_code(v: &ADSBVersion) -> i64 {
         ADSBVersion::DOC9871AppendixA => 0,
         ADSBVersion::DOC9871AppendixB => 1,
         ADSBVersion::DOC9871AppendixC => 2,
+        _ => -1, // a variant this projection does not know: equal to no specified value
     }
 }
 
@@ -124,6 +134,7 @@ fn cap(c: &Capability) -> i64 {
         Capability::AG_AIRBORNE => 5,
         Capability::AG_UNCERTAIN2 => 6,
         Capability::AG_UNCERTAIN3 => 7,
+        _ => -1, // a variant this projection does not know: equal to no specified value
     }
 }
 
@@ -134,6 +145,7 @@ fn dr(d: &DownlinkRequest) -> i64 {
         DownlinkRequest::CommBBroadcastMsg1 => 4,
         DownlinkRequest::CommBBroadcastMsg2 => 5,
         DownlinkRequest::Unknown(v) => i64::from(*v),
+        _ => -1, // a variant this projection does not know: equal to no specified value
     }
 }
 
@@ -207,6 +219,7 @@ pub fn velocity(m: &mut Obj, v: &AirborneVelocity) {
         AirborneVelocitySubType::Reserved0(r) | AirborneVelocitySubType::Reserved1(r) => {
             put(m, "vraw22", i64::from(*r));
         }
+        _ => put(m, "vst", -1),
     }
 }
 
@@ -338,6 +351,7 @@ fn me(m: &mut Obj, me: &ME) {
             put(m, "rsv5", i64::from(*a));
             m.insert("raw".into(), Value::Array(r.iter().map(|x| Value::from(i64::from(*x))).collect()));
         }
+        _ => put(m, "mek", -1), // a payload variant this projection does not know
     }
 }
 
@@ -384,6 +398,7 @@ fn bds(m: &mut Obj, b: &BDS) {
             put(m, "bdsid", i64::from(*id));
             m.insert("raw".into(), Value::Array(r.iter().map(|x| Value::from(i64::from(*x))).collect()));
         }
+        _ => put(m, "bdsk", -1),
     }
 }
 
@@ -401,19 +416,19 @@ pub fn frame(f: &Frame) -> Obj {
             put(&mut m, "ac", i64::from(altitude.0));
             put(&mut m, "ap", i64::from(icao_u32(parity)));
         }
-        DF::SurveillanceAltitudeReply { fs, dr, um, ac, ap } => {
+        DF::SurveillanceAltitudeReply { fs, dr, um, ac, ap, .. } => {
             put(&mut m, "df", 4);
             surv(&mut m, fs, dr, um);
             put(&mut m, "ac", i64::from(ac.0));
             put(&mut m, "ap", i64::from(icao_u32(ap)));
         }
-        DF::SurveillanceIdentityReply { fs, dr, um, id, ap } => {
+        DF::SurveillanceIdentityReply { fs, dr, um, id, ap, .. } => {
             put(&mut m, "df", 5);
             surv(&mut m, fs, dr, um);
             put(&mut m, "id", i64::from(id.0));
             put(&mut m, "ap", i64::from(icao_u32(ap)));
         }
-        DF::AllCallReply { capability, icao, p_icao } => {
+        DF::AllCallReply { capability, icao, p_icao, .. } => {
             put(&mut m, "df", 11);
             put(&mut m, "ca", cap(capability));
             put(&mut m, "aa", i64::from(icao_u32(icao)));
@@ -435,31 +450,31 @@ pub fn frame(f: &Frame) -> Obj {
             put(&mut m, "pi", i64::from(icao_u32(&a.pi)));
             me(&mut m, &a.me);
         }
-        DF::TisB { cf, pi } => {
+        DF::TisB { cf, pi, .. } => {
             put(&mut m, "df", 18);
             put(&mut m, "cf", cf_type(cf));
             put(&mut m, "aa", i64::from(icao_u32(&cf.aa)));
             put(&mut m, "pi", i64::from(icao_u32(pi)));
             me(&mut m, &cf.me);
         }
-        DF::ExtendedQuitterMilitaryApplication { af } => {
+        DF::ExtendedQuitterMilitaryApplication { af, .. } => {
             put(&mut m, "df", 19);
             put(&mut m, "af", i64::from(*af));
         }
-        DF::CommBAltitudeReply { flight_status, dr, um, alt, bds: b } => {
+        DF::CommBAltitudeReply { flight_status, dr, um, alt, bds: b, .. } => {
             put(&mut m, "df", 20);
             surv(&mut m, flight_status, dr, um);
             put(&mut m, "ac", i64::from(alt.0));
             bds(&mut m, b);
         }
-        DF::CommBIdentityReply { fs, dr, um, id, bds: b, parity } => {
+        DF::CommBIdentityReply { fs, dr, um, id, bds: b, parity, .. } => {
             put(&mut m, "df", 21);
             surv(&mut m, fs, dr, um);
             put(&mut m, "id", i64::from(*id));
             bds(&mut m, b);
             put(&mut m, "ap", i64::from(icao_u32(parity)));
         }
-        DF::ModeSExtendedSquitter { df, capability, icao, type_code, adsb_data, parity } => {
+        DF::ModeSExtendedSquitter { df, capability, icao, type_code, adsb_data, parity, .. } => {
             put(&mut m, "df", i64::from(*df));
             put(&mut m, "ca", cap(capability));
             put(&mut m, "aa", i64::from(icao_u32(icao)));
@@ -468,6 +483,7 @@ pub fn frame(f: &Frame) -> Obj {
             put(&mut m, "dlo", (*adsb_data & 0x7fff_ffff) as i64);
             put(&mut m, "pi", i64::from(icao_u32(parity)));
         }
+        _ => put(&mut m, "df", -1),
     }
     m
 }
